@@ -22,10 +22,12 @@ const (
 	ekCaseBreakInIf
 	ekDefaultEmpty
 	ekDefaultBody
+	ekDefaultBodyBreak
+	ekDefaultBreakInIf
 	ekCount
 )
 
-var ekNames = []string{"case-empty", "case-body", "case-body-break", "case-break-middle", "case-break-in-if", "default-empty", "default-body"}
+var ekNames = []string{"case-empty", "case-body", "case-body-break", "case-break-middle", "case-break-in-if", "default-empty", "default-body", "default-body-break", "default-break-in-if"}
 
 // enumCaseLists lists every case list of the given length with at most one default.
 func enumCaseLists(n int) [][]int {
@@ -63,11 +65,11 @@ func buildSwitch(g *spec.Gen, kinds []int) *spec.Switch {
 		switch e {
 		case ekCaseBody, ekDefaultBody:
 			c.Body.Stmts = []spec.Stmt{cmd()}
-		case ekCaseBodyBreakEnd:
+		case ekCaseBodyBreakEnd, ekDefaultBodyBreak:
 			c.Body.Stmts = []spec.Stmt{cmd(), brk()}
 		case ekCaseBreakMiddle:
 			c.Body.Stmts = []spec.Stmt{cmd(), brk(), cmd()}
-		case ekCaseBreakInIf:
+		case ekCaseBreakInIf, ekDefaultBreakInIf:
 			fl := &spec.Leaf{ID: g.Prog.NewID(), Kind: spec.LeafFlag, Operand: []string{g.Name("FLAG_B")}}
 			c.Body.Stmts = []spec.Stmt{cmd(), &spec.If{ID: g.Prog.NewID(), Arms: []*spec.Arm{{Cond: fl, Body: &spec.Block{ID: g.Prog.NewID(), Stmts: []spec.Stmt{brk()}}}}}, cmd()}
 		}
